@@ -172,6 +172,9 @@ def var_modifiers(var_name: str) -> List[str]:
     :param var_name: the name to check
     :return: a list of the modifiers, or an empty list
     """
+    if not isinstance(var_name, str):
+        # e.g. a dictionary keyed by ints or tuples: there is no modifier convention for these
+        return []
     if var_name.startswith("__"):
         return ['private']
     if var_name.startswith("_"):
@@ -300,7 +303,7 @@ def correct_names(name, val):
     :return: the new name to use
     """
     prefix = "_" + name
-    if val.startswith(prefix):
+    if isinstance(val, str) and val.startswith(prefix):
         return val[len(prefix):]
     return val
 
@@ -331,6 +334,22 @@ def find_children_for_parent(var_collector: Collector, parent_node: ParentNode, 
         return []
 
 
+def _key_to_name(key) -> str:
+    """
+    Convert a dictionary key into the name of the child variable.
+
+    Keys can be any hashable value (ints, tuples, objects), variable names are always text.
+    :param key: the dictionary key
+    :return: the key if it is already text, else its text form
+    """
+    if isinstance(key, str):
+        return key
+    try:
+        return str(key)
+    except Exception:
+        return f'{type(key)}@{id(key)}'
+
+
 def process_dict_breadth_first(parent_node, type_name, value, func=lambda x, y: y) -> List[Node]:
     """
     Process a dict value.
@@ -346,8 +365,8 @@ def process_dict_breadth_first(parent_node, type_name, value, func=lambda x, y: 
     :return (list): the collected child nodes
     """
     # we wrap the keys() in a call to list to prevent concurrent changes
-    return [Node(value=NodeValue(func(type_name, key), value[key], key), parent=parent_node) for key in
-            list(value.keys()) if
+    return [Node(value=NodeValue(func(type_name, _key_to_name(key)), value[key], _key_to_name(key)), parent=parent_node)
+            for key in list(value.keys()) if
             key in value]
 
 
